@@ -45,6 +45,6 @@ CLAIM = {
     "design_ref": "DESIGN.md section 8, C16; findings F6, F7 (section 9.A); observation 9.B-10",
     "note": "PARTIAL: goroutine scheduling, net/http's Shutdown/Serve and sockets are assumed to behave as the library actions in the model (Go documentation), and the tie to the code is a finite set of "
             "gated scenarios rather than schedule enumeration of the real goroutines. Trusted: Coq kernel+vm_compute, Glue/G16.v, Go driver c16.go (gates, port probes, goroutine dumps, child process of "
-            "cmd/chihaya built with the add-only shim cmd/chihaya/zz_verif.go), miniredis.",
+            "cmd/chihaya built with the add-only shim cmd/chihaya/zz_verif.go), miniredis. pkg/metrics.Server (its http.Server exists before the serving goroutine starts, so the F6 shape does not apply; the window inside net/http.ListenAndServe between its shuttingDown test and trackListener is library-internal) is not modelled separately: it is exercised as a member of Run's stop group in the reload histories.",
     "technique": "Coq proofs (invariants over all schedules of lifecycle interleaving machines, stop-group algebra, reload transparency) + gated deterministic scenarios on the real code compared with the model",
 }
